@@ -47,10 +47,18 @@ def fault_family(tier):
             if kind != "PLACE":
                 k += 1
                 scns.append(_fault_scn("f%d" % k, kind, n, {"reports": [outs[kind][0]] * n}, complete_first=True))
+                # ... or during the back-off between a failed attempt and its retry (incl. the last retry failing too)
+                for fails in (1, 2, 4):
+                    for which in sorted({0, n - 1}):
+                        k += 1
+                        scns.append(_fault_scn("f%d" % k, kind, n, {"reports": [outs[kind][0]] * n}, raises=fails, complete_in_backoff=which))
+                        # ... or before the first attempt, which then fails (the retry is decided with the completion known)
+                        k += 1
+                        scns.append(_fault_scn("f%d" % k, kind, n, {"reports": [outs[kind][0]] * n}, raises=fails, complete_first=True, complete_which=which))
     return scns
 
 
-def _fault_scn(sid, kind, n, plan, raises=0, applied=False, complete_first=False):
+def _fault_scn(sid, kind, n, plan, raises=0, applied=False, complete_first=False, complete_in_backoff=None, complete_which=0):
     steps = [{"op": "book"}]
     labs = ["o%d" % (i + 1) for i in range(n)]
     steps.append({"op": "req", "actions": [{"op": "place", "o": l, "t": "t_" + l, "sel": 11, "side": "BACK", "price": 2.0, "size": 4.0} for l in labs]})
@@ -65,11 +73,13 @@ def _fault_scn(sid, kind, n, plan, raises=0, applied=False, complete_first=False
         # one transaction -> one package of n orders
         steps.append({"op": "reqtxn", "actions": [act(l) for l in labs]})
         if complete_first:
-            steps += [{"op": "fill", "o": labs[0], "amount": 4.0}, {"op": "snap"}, {"op": "proc"}]
+            steps += [{"op": "fill", "o": labs[complete_which], "amount": 4.0}, {"op": "snap"}, {"op": "proc"}]
     if kind == "PLACE":
         steps[1] = {"op": "reqtxn", "actions": steps[1]["actions"]}
     for a in range(raises):
         steps.append({"op": "run", "i": 0, "plan": {"raise": True, "apply": applied and a == 0}})
+        if a == 0 and complete_in_backoff is not None:
+            steps += [{"op": "fill", "o": labs[complete_in_backoff], "amount": 4.0}, {"op": "snap"}, {"op": "proc"}]
     steps.append({"op": "run", "i": 0, "plan": plan or {}})
     steps += [{"op": "run", "i": 0, "plan": {}}, {"op": "snap"}, {"op": "proc"}]
     return {"id": sid, "strategies": [{"name": "A"}], "steps": steps, "seed": 1}
